@@ -119,7 +119,7 @@ STD_TYPES = [m.value for m in FMsg]
 
 
 def msgtype_strategy():
-    return st.one_of(st.sampled_from(STD_TYPES), st.sampled_from(STD_TYPES), CUSTOM_TYPES)
+    return st.one_of(st.sampled_from(STD_TYPES), st.sampled_from(STD_TYPES), CUSTOM_TYPES, st.sampled_from(["4", "4", "D", "8", "A", "0"]))
 
 
 compid = st.one_of(
@@ -143,6 +143,8 @@ def message_case(draw, allow_marker=True, max_entries=8):
         "target": draw(compid),
         "next_out": draw(seqnum),
         "carried": draw(seqnum),
+        # FIXMessage documents msg_type as `str | FMsg`: standard types come in both spellings
+        "type_spelling": draw(st.sampled_from(["enum", "str"])),
     }
     if mode == "seqreset":
         case["newseqno"] = draw(seqnum)
@@ -166,7 +168,7 @@ def fill_container(c: FIXContainer, entries):
 def build_message(case):
     """FIXMessage for a case; mode-specific tags are placed as the library's own code does."""
     mt = case["msgtype"]
-    m = FIXMessage(FMsg(mt) if mt in FMsg else mt)
+    m = FIXMessage(FMsg(mt) if (mt in FMsg and case.get("type_spelling", "enum") == "enum") else mt)
     mode = case["mode"]
     extra = []
     if mode == "possdup":
@@ -273,4 +275,14 @@ def sweep_cases():
                 body = [e for e in body if e[0] == "g" or e[1] not in TRANS[g]]
                 cases.append({"msgtype": "D", "mode": "normal", "body": body, "sender": "CLI", "target": "SRV",
                               "next_out": 7, "carried": 3, "sweep": f"{g}/{n}/{shape}"})
+    # every encoding mode x both spellings of the message type (msg_type is documented as `str | FMsg`)
+    for sp in ("enum", "str"):
+        for mt, mode in [("D", "normal"), ("D", "possdup"), ("D", "raw"), ("8", "possdup"), ("0", "normal"), ("4", "seqreset"), ("A", "raw")]:
+            for gf in ((None, "Y", "N") if mode == "seqreset" else (None,)):
+                c = {"msgtype": mt, "mode": mode, "body": [("f", "58", "text")] if mt != "4" else [], "sender": "CLI", "target": "SRV",
+                     "next_out": 41, "carried": 12, "type_spelling": sp, "sweep": f"mode/{mt}/{mode}/{sp}"}
+                if mode == "seqreset":
+                    c["newseqno"] = 50
+                    c["gapfill"] = gf
+                cases.append(c)
     return cases
